@@ -32,6 +32,12 @@ claimed={
  "C11":dict(design="§7 C11",
    text="Bounded symbolic model checking of the real handleMethod / handleStream closures with a recording ResponseWriter: HTTP method string, Content-Type (concrete values through the real mime parser plus symbolic parameter-less values at the lengths where a supported type can occur), a -bin header (real base64 rules as terms), GRPC-Timeout and the body bytes are symbolic, one dimension at a time plus all together at a smaller bound. Assertions: handler at most once and only for POST + supported media type + decodable headers, else 405/415/400 without running application code; undecodable unary body => InvalidArgument; the recorded streaming reply is data frames followed by exactly one decodable trailer frame; panics are implicit assertions.",
    note="Trusted: engine SSA semantics; mime/base64/protobuf-wire intrinsics (validated per run against the native build on sampled paths); http.Error and Header from real SSA. Not covered: 404 routing (ServeMux, see C12), JSON body equivalence (protojson not modelled; only codec selection), trailers that cannot be encoded (non-UTF-8, see the C02/C03 finding). The cross product of all dimensions is explored only at the smaller 'all' bound."),
+ "C04":dict(design="§7 C04",
+   text="Bounded symbolic model checking of the real call paths (in-process Invoke/NewStream/readMessage/writeMessage and stream methods; HTTP Invoke, doHttpCall, RecvMsg, handleMethod/handleStream) with the engine's own goroutine scheduler: the cancellation or deadline instant is an environment event that may occur at every scheduling point; handler behaviour (responds, honours its context, fails, returns a context error) and RPC kind are symbolic choices. Every explored schedule must end in the complete real result, the matching Canceled/DeadlineExceeded status, or the handler's own status: never nil/io.EOF with missing data, never a non-status error; deadlock and goroutine-leak verdicts come from the scheduler. Concurrent counterexamples are confirmed by schedule-pinned native replay.",
+   note="Trusted: engine SSA semantics and scheduler (scheduling points = visible operations), the context model (incl. asynchronous propagation through grpchan's noValuesContext), sync objects, protobuf stubs, the HTTP hop harness. Schedules beyond the pre-emption / delay bound, wall-clock promptness, GC finalisers and net/http's own disconnect detection are outside the claim."),
+ "C20":dict(design="§7 C20",
+   text="Bounded symbolic model checking of in-process stream sends with a stalled receiver, using the scheduler's quiescence verdict (no other goroutine can take a step): at most one send per direction completes (a pending header frame occupies the same slot), the next send is blocked but not failed, and it completes when the peer receives, when the handler returns, or when the context ends; all schedules within the pre-emption bound.",
+   note="Trusted: engine SSA semantics and scheduler, context model, protobuf clone stub. Number of attempted sends and pre-emptions bounded as stated."),
 }
 pending_reason="check not built yet (engine layers under construction); see DESIGN.md §9"
 na={}
